@@ -258,11 +258,9 @@ impl<'a> GeneratorState<'a> {
                             }
                             // The offset may push an access based on a constant zeropage
                             // address beyond page zero: the assembler then uses absolute mode
-                            let beyond_zeropage = match &v.def {
-                                VariableDefinition::Value(VariableValue::Int(a)) => {
-                                    v.var_const && a.wrapping_add(off) > 0xff
-                                }
-                                _ => false,
+                            let beyond_zeropage = match self.compiler_state.constant_address(v) {
+                                Some(a) => a.wrapping_add(off) > 0xff,
+                                None => false,
                             };
                             if v.memory == VariableMemory::Zeropage && !beyond_zeropage {
                                 cycles += 1;
